@@ -1,4 +1,3 @@
-import RP.Driver.Common
--- line-protocol driver for property C03 (stub)
-def handle (_line : String) : String := "unimplemented"
-def main : IO Unit := RP.Driver.run handle
+import RP.Driver.GameOps
+/-! line-protocol driver for C03 (ops `game`, `allowed`; see `RP/Driver/GameOps.lean`) -/
+def main : IO Unit := RP.Driver.run RP.Driver.GameOps.handle
